@@ -307,12 +307,39 @@ def r9_5(rep):
     t = rep.need(prog.fn("codegen::utils::type_from_named"), "type_from_named")
     ma = [n for n in a.walk() if n["k"] == "Match"]
     mt = [n for n in t.walk() if n["k"] == "Match"]
-    rep.need(ma and mt, "name matches")
-    ta, tt = lit_table(a, ma[0], None), lit_table(t, mt[0], None)
+    rep.need(mt, "name match in type_from_named")
+    tt = lit_table(t, mt[0], None)
+    if ma:
+        ta = lit_table(a, ma[0], None)
+    else:
+        # the same table written as data: `NAMES.contains(&name)` (possibly and-ed with a condition)
+        ta = {}
+        for c in a.calls(lambda n: n["k"] == "MCall" and n["name"] == "contains"):
+            src = strip(c["recv"])
+            if src.get("k") == "Path" and prog.fn(src.get("def", "")) is not None:
+                cb = prog.fn(src["def"])
+                arr = [x for x in cb.walk() if x["k"] == "Array"]
+                lits = [strip(e).get("v") for e in (arr[0]["es"] if arr else [])]
+            elif src.get("k") == "Array":
+                lits = [strip(e).get("v") for e in src["es"]]
+            else:
+                continue
+            conds = [a.canon(g, 4) for pol, kind, g in a.guards(c) if kind == "cond"]
+            par = a.parent[c["_i"]]
+            while par is not None and par["k"] in ("AddrOf", "Unary"):
+                par = a.parent[par["_i"]]
+            if par is not None and par["k"] == "Binary" and par["op"] == "&&":
+                other = par["l"] if strip(par["r"]) is c or any(x is c for x in a.walk(par["r"])) else par["r"]
+                o = strip(other)
+                conds.append(o["f"] if o.get("k") == "Field" else a.canon(o, 4))
+            for l in lits:
+                if isinstance(l, str):
+                    ta[l] = "always" if not conds else "if " + conds[-1].split("::")[-1]
+        rep.need(ta, "the name table of is_stdint_type (a match on the name or a constant list with `contains`)")
     for name in sorted(set(ta) | set(tt)):
         rep.check(ta.get(name) == tt.get(name), "stdint:" + name,
                   "`%s`: treated as builtin %s by is_stdint_type (its typedef is then neither traced nor generated) but mapped to a "
-                  "primitive %s by type_from_named" % (name, ta.get(name, "never"), tt.get(name, "never")), a.loc(ma[0]))
+                  "primitive %s by type_from_named" % (name, ta.get(name, "never"), tt.get(name, "never")), a.loc(ma[0] if ma else a.root))
     # kinds for which Type::codegen emits nothing  ==  kinds auto-allowlisted in non-recursive mode
     tc = rep.need(prog.impl_fn("codegen::CodeGenerator", "ir::ty::Type", "codegen"), "<Type as CodeGenerator>::codegen")
     nocode = None
@@ -506,3 +533,43 @@ def r9_9(rep):
     rep.check(not extra, "unnamed-enum-root:no-extra-condition", "conditions other than enum / unnamed / parent-is-a-module: %s" % extra, b.loc(anys[0]))
     pos = [a for a, pol, node in qq.guard_atoms(b, anys[0]) if "Item::is_module" in a and pol]
     rep.check(bool(pos), "unnamed-enum-root:parent-is-module", "the parent of the enum must be a module (any module)", b.loc(anys[0]))
+
+
+COMPUTED_EDGE_OK = {
+    ("CompInfo::trace", "call:ir::template::TemplateParameters::all_template_params[]"):
+        "the template parameters of a class are not stored in CompInfo; they are looked up through the item, and are ids of declared "
+        "TypeParam items (nothing is resolved away)",
+}
+
+
+@RULES.rule("R9.10", "edges lead to the ids that are stored (and later spelled), never to what they resolve to", floor=22)
+def r9_10(rep):
+    """The traversal decides which items are generated; codegen then spells the STORED ids (`bf.ty()` -> `flags_t`).  An edge that
+    targets `id.into_resolver().through_type_refs().through_type_aliases().resolve(ctx)` instead of the id skips every typedef in
+    between: with `--allowlist-type S`, `struct S { flags_t f : 3; }` still says `fn f(&self) -> flags_t` but `flags_t` is never
+    emitted."""
+    import tracegraph as tg
+    prog = rep.prog
+    g = tg.TraceGraph(prog)
+    n = 0
+    seen_keys = {}
+    for p, ems in sorted(g.emissions.items()):
+        fn = re.sub(r"^<(.+?) as .+?>::", lambda m: m.group(1).split("::")[-1] + "::", p)
+        fn = "::".join(fn.split("::")[-2:])
+        for e in ems:
+            n += 1
+            computed = [s for s in e.sites if s.startswith("call:")]
+            key = "edge-target:%s:%s" % (fn, e.kind)
+            seen_keys[key] = seen_keys.get(key, 0) + 1
+            if seen_keys[key] > 1:
+                key += "#%d" % seen_keys[key]
+            if not computed:
+                rep.ok(key, "stored id(s): %s" % ", ".join(x.split("::")[-1] for x in e.sites)[:100], e.body.loc(e.node))
+                continue
+            why = [COMPUTED_EDGE_OK.get((fn, s)) for s in computed]
+            if all(why):
+                rep.ok(key, "exempt: " + why[0], e.body.loc(e.node))
+            else:
+                rep.bad(key, "the edge targets a computed id (%s): items between the stored id and that result are never reached, although "
+                        "codegen spells the stored id" % ", ".join(c[5:].split("::")[-1] for c in computed), e.body.loc(e.node))
+    rep.need(n >= 22, "edge emissions in Trace impls")
